@@ -19,7 +19,7 @@ PBT = "exploration by generated-input search (Hypothesis) against an explicit or
 CLAIMED = {
     "C01": ("Hypothesis-generated call histories on one WallGoManager; oracles: sign bracket of the re-evaluated "
             "pressure (solver protocol and grid-adapted), window, T30 identity on reported profiles, re-convergence, "
-            "bit-identical replay against a fresh manager in a fresh process",
+            "bit-identical replay against a fresh manager in a fresh process; outside observer of the solver's non-convergence log record per pressure evaluation (configurations with maxIterations 2 and 3)",
             "Every generated history (model point x configuration x 3-9 public calls) satisfied labelling, window, bracket, "
             "attached-data and history-independence oracles, except for the listed known finding.",
             "Polynomial model families (Z2x2, Cubic1); pressure re-evaluated through the public EOM; non-conserving "
@@ -50,7 +50,7 @@ CLAIMED = {
             "DESIGN.md 3/C09, 7.3"),
     "C10": ("Hypothesis over potentials x tracing parameters (direct and through the manager) x ~30 temperatures per object "
             "from far below to far above the tabulated ranges; thermodynamic identities, derivative consistency by "
-            "in-piece stencils, one-sided continuity, closed-form p=-V, alpha_n",
+            "in-piece stencils, one-sided continuity, closed-form p=-V, alpha_n; call histories on one object (re-trace, in-place parameter change, re-trace ending within rounding of a tabulated temperature) with a like-for-like accuracy relation",
             "e, w, cs2 relations, derivative consistency, continuity of p, dp, ddp, cs2 across range ends, p=-V(min) and "
             "alpha_n(closed form) held for every generated Thermodynamics object.",
             "Units fixed to 1 (unit dependence is C07/C11).", "DESIGN.md 3/C10, 7.3"),
@@ -67,7 +67,7 @@ CLAIMED = {
             "background immutability held on all generated cases.",
             "Synthetic collision kernels defined in function space by the harness.", "DESIGN.md 3/C12"),
     "C13": ("Hypothesis over grids x mass profiles x deviations in the Gauss-Chebyshev-Lobatto exactness family; "
-            "closed-form Chebyshev moments and direct boosted T^{mu nu} integrals as oracle",
+            "closed-form Chebyshev moments and direct boosted T^{mu nu} integrals as oracle; grids rescaled in place, caller's background buffers overwritten after setBackground",
             "All four moments equal the closed-form integrals to rounding; stress tensor equals the direct momentum "
             "integral; linearity.", "deltaToTmunu is called on a minimal EOM object carrying only the particle list.",
             "DESIGN.md 3/C13"),
@@ -103,7 +103,7 @@ CLAIMED = {
 CLAIMED["C20"] = (
     "exhaustive enumeration of all 2x10000 table rows, midpoints and abscissae + Hypothesis over arguments, "
     "derivative orders and particle contents; Bessel series / mpmath quadrature of the defining integrand / closed-form "
-    "imaginary parts as oracle; spline-of-oracle differential for the shipped interpolant",
+    "imaginary parts as oracle; spline-of-oracle differential for the shipped interpolant; call histories on one Integrals() object (probe, scan of 510-990 arguments, probe)",
     "Direct evaluation, shipped tables (value and first derivative) and the one-loop thermal potential (Stefan-Boltzmann "
     "limit, Boltzmann suppression, continuity, imaginary-part options, jCW) agree with the independent oracle.",
     "Tolerances derived from quad's documented accuracy; measured envelope only next to the non-analytic points.",
@@ -131,7 +131,7 @@ CLAIMED["C02"] = (
 CLAIMED["C03"] = (
     "Hypothesis over the C02 domain plus independently drawn (vw, v+, T+) triples; independent integrator in the "
     "similarity variable (DOP853, rtol 1e-11) crossing the front with energy-flux conservation as oracle; efficiency "
-    "factor against quadrature over the reference profile",
+    "factor against quadrature over the reference profile; efficiencyFactor call histories on one object (other flow type in between)",
     "The matched flow reaches Tn at rest within the backward bound, the momentum-flux condition holds at the front "
     "for constant-cs EOS, detonations have T+=Tn and v+=vw, solveHydroShock and efficiencyFactor agree with the "
     "reference.", "Near-sonic fronts below 1e-6 discarded; kappa bound 5e-3 away from vJ (measured 6.6e-4).",
